@@ -203,6 +203,14 @@ var c12Baseline = map[string]bool{
 }
 
 func c12Violation(run *vlib.Run, oracle, sig, msg string, wit any) {
+	if strings.Contains(sig, "store=rosmar-as-is") {
+		// Not decided on this store: rosmar lets Delete of an already deleted key succeed, Couchbase Server answers
+		// key-not-found, and consuming a one-time session relies on that answer. The same schedules are decided on
+		// the store variant that follows the Couchbase contract; here the observation is only counted.
+		run.Count("one_time_double_accept_on_rosmar_as_is_not_deciding", 1)
+		run.Note("non-deciding (store artefact): %s: %s", sig, msg)
+		return
+	}
 	if c12Baseline[sig] && os.Getenv("VERIF_C12_KNOWN") == "notes" {
 		run.Count("baseline_findings_recorded_as_notes", 1)
 		run.Distinct("baseline_signatures_as_notes", sig)
